@@ -146,9 +146,27 @@ pub assume_specification<T>[<T as From<T>>::from](t: T) -> (r: T) ensures r == t
 // tower_service::Service with a ghost log of the requests the service has been called with (A-tower-01)
 pub trait Service<Request> {
     type Future;
+    type Error: IntoDynBox;
     spec fn log(&self) -> Seq<Request>;
+    spec fn ready_now(&self) -> Poll<Result<(), Self::Error>>;
+    // A-tower-03: poll_ready reports the readiness of the service (a ghost property of its state) and hands it no request
+    fn poll_ready(&mut self, cx: &mut Context) -> (r: Poll<Result<(), Self::Error>>)
+        ensures r == old(self).ready_now(), final(self).log() == old(self).log();
     fn call(&mut self, req: Request) -> (f: Self::Future)
         ensures final(self).log() == old(self).log().push(req);
+}
+// A-core-30: the inner service's error converts into the boxed error (`Into<BoxError>`); the value is some function of it
+pub trait IntoDynBox: Sized { spec fn boxed(self) -> Box<DynError>; fn into(self) -> (r: Box<DynError>) ensures r == self.boxed(); }
+impl<T, E> Poll<Result<T, E>> {
+    // A-core-09: Poll::map_err maps the Err of a ready result
+    #[verifier::external_body]
+    pub fn map_err<U, G: FnOnce(E) -> U>(self, f: G) -> (r: Poll<Result<T, U>>)
+        requires self matches Poll::Ready(Err(e)) ==> f.requires((e,))
+        ensures
+            self is Pending ==> r is Pending,
+            self matches Poll::Ready(Ok(t)) ==> r == Poll::<Result<T, U>>::Ready(Ok(t)),
+            self matches Poll::Ready(Err(e)) ==> r matches Poll::Ready(Err(u)) && f.ensures((e,), u),
+    { unimplemented!() }
 }
 // R12: `F: Future<Output = Result<Response<B>, E>>` is written `F: HttpFuture<B>` with E = the boxed error (A-future-01: a ready
 // result is one the future `resolves` to)
@@ -307,6 +325,14 @@ impl Status {
     u.fn(RE, 'full', within='impl<B> ResponseBody<B>', ensures=[Clause('B0_full_holds_the_body', 'r.inner == Some(inner)')])
     u.fn(RE, 'empty', within='impl<B> ResponseBody<B>', ensures=[Clause('B0_empty_holds_nothing', 'r.inner is None')])
     u.close('}')
+    u.fn(RE, 'poll_ready', within='impl<S, Req, ResBody> Service<Req> for RecoverError<S>', header='impl<S> RecoverError<S> {', close=True, display='RecoverError::poll_ready',
+         sig_edits=[lambda t: t.sub_code('R9', r'Self::Error', 'Box<DynError>'), lambda t: t.sub_code('R12', r'fn poll_ready\(', 'fn poll_ready<Req>('),
+                    lambda t: t.edit('R12', len(t.t.rstrip()), len(t.t.rstrip()), ' where S: Service<Req>')],
+         body_edits=[lambda t: t.sub_code('R3', r'\.map_err\(Into::into\)', '.map_err(|e| IntoDynBox::into(e))')],
+         closures={0: dict(params='e: S::Error', ret='(x: Box<DynError>)', ensures=['x == e.boxed()'])},
+         ensures=[Clause('R0b_ready_exactly_when_the_wrapped_service_is_its_error_boxed_and_no_request_is_handed_on',
+                         '''(match old(self).inner.ready_now() { Poll::Pending => r is Pending, Poll::Ready(Ok(_)) => r matches Poll::Ready(Ok(_)), Poll::Ready(Err(e)) => r == Poll::<Result<(), Box<DynError>>>::Ready(Err(e.boxed())) })
+                && final(self).inner.log() == old(self).inner.log()''')])
     u.fn(RE, 'call', within='impl<S, Req, ResBody> Service<Req> for RecoverError<S>',
          header='impl<S> RecoverError<S> {', close=True,
          sig_edits=[lambda t: t.sub_code('R9', r'Self::Future', 'ResponseFuture<S::Future>'),
